@@ -11,7 +11,7 @@ variable (m : Model) (e : Enc) (ln : Kind → Vals → Bytes)
 
 /-- the line `ln k v` is a line of kind `k`, long enough, and decodes to `v` -/
 def RecOK (k : Kind) (v : Vals) : Prop :=
-  kindOfLine (ln k v) = some k ∧ minLen (ln k v) ≤ (ln k v).length ∧ recParse m e k (ln k v) (tmpl m k) = .ok v
+  kindOfLine (ln k v) = some k ∧ minLen m e (ln k v) ≤ (ln k v).length ∧ recParse m e k (ln k v) (tmpl m k) = .ok v
 
 def mkRec (k : Kind) (v : Vals) : Rec := (k, v, ln k v)
 
